@@ -8,7 +8,7 @@ open Cls
 
 namespace Source
 variable {α κ : Type}
-open Src
+open Src Stk
 
 /-- **`get_valid_classes` as written in dcmmeta.py is the model's `validClasses`** (3 to 5 axes) … -/
 theorem get_valid_classes_is_model (e : DExt κ α) (sdArg : Option Nat) (h3 : 3 ≤ e.shape.length)
@@ -75,6 +75,24 @@ theorem meta_valid_is_model (e : ExtGeom) (img : Img) (c : Cls)
     Py.meta_valid img.shape e.shape img.sliceDim (e.sliceDim.map fun d => e.shape[d]!) img.aligned c =
       .ok (metaValid e img c) :=
   Src.meta_valid_eq e img c hisd hesd h4
+
+/-- **the count checks of `get_shape` as written in dcmstack.py are the count conjuncts of the model's
+    acceptance test**, and the dimensions they derive are the model's `dimS`, `dimT`, `dimV` -/
+theorem get_shape_counts_is_model (n s v : Nat) (sp : Bool) :
+    Py.get_shape_counts n s v sp =
+      if countsOk n s v sp then .ok (s, n / s / v, v) else .error PyErr.invalidStack :=
+  Src.get_shape_counts_eq n s v sp
+
+/-- the model's acceptance test is those count conjuncts and the two order checks of `_chk_order` -/
+theorem accept_is_counts_and_order (spacingOk : List Int → Bool) (files : List F) :
+    acceptB spacingOk files =
+      (countsOk files.length (dimS files) (dimV files) (spacingOk (distinctSorted (files.map (·.p)))) &&
+       (chunks (dimT files * dimS files) (dimV files)
+          (chkSort (dimS files) (files.length / dimS files) files)).all allSameV &&
+       (chunks (dimS files) (files.length / dimS files)
+          (chkSort (dimS files) (files.length / dimS files) files)).all
+        (fun b => b.map (·.p) == distinctSorted (files.map (·.p)))) :=
+  Src.acceptB_counts spacingOk files
 
 /-- the translator translated every function it is asked for -/
 theorem translator_complete : Gen.codeMissing = [] := rfl
